@@ -597,7 +597,14 @@ typedef etrs_st *etrs_t;
 	bn_new((A)->r[1]);														\
 
 #elif ALLOC == AUTO
-#define ers_new(A)				/* empty */
+#define ers_new(A)															\
+	ec_new((A)->h);															\
+	ec_new((A)->pk);														\
+	bn_new((A)->c[0]);														\
+	bn_new((A)->c[1]);														\
+	bn_new((A)->r[0]);														\
+	bn_new((A)->r[1]);														\
+
 #endif
 
 /**
@@ -648,7 +655,14 @@ typedef etrs_st *etrs_t;
 	bn_new((A)->r[1]);														\
 
 #elif ALLOC == AUTO
-#define smlers_new(A)		/* empty */
+#define smlers_new(A)														\
+	ers_new((A)->sig);														\
+	ec_new((A)->tau);														\
+	bn_new((A)->c[0]);														\
+	bn_new((A)->c[1]);														\
+	bn_new((A)->r[0]);														\
+	bn_new((A)->r[1]);														\
+
 #endif
 
 /**
